@@ -1,7 +1,7 @@
 """HLL rules (C03, C04): register max-store discipline, merge loops, nibble decode agreement, successor-local rule,
 coupon constants, mode byte inverse; union: refresh discipline (A6), lg_k rule, replace-only-if-empty, take-over guard."""
 import json
-from astu import C, ctxt, gt_pair, eq_const, strip, strip_all, walk, walkp, txt, short, is_this_field, field_name, stmts_of, always_throws, functions_by, local_decls
+from astu import C, ctxt, gt_pair, eq_const, reach, reach_txt, ctext, strip, strip_all, walk, walkp, txt, short, is_this_field, field_name, stmts_of, always_throws, functions_by, local_decls
 from vlib.core import ob
 
 DERIVED = ("curMin_", "numAtCurMin_", "kxq0_", "kxq1_")
@@ -856,6 +856,8 @@ def coupon_identity(facts):
             continue
         decls = local_decls(fn)
         eqs = []
+        rvars = set()   # elements of range-for loops (index loops over a container are exported in that form too)
+        walk(fn["body"], lambda n: rvars.add((n.get("var") or {}).get("d")) if n.get("k") == "RangeFor" else None)
 
         def v(n):
             if n.get("k") == "Bin" and n.get("op") == "==":
@@ -874,8 +876,8 @@ def coupon_identity(facts):
         loaded = False
         if other and other[0].get("k") == "Ref" and other[0].get("d") in decls:
             ini = strip_all(decls[other[0]["d"]].get("init") or {})
-            loaded = ini.get("k") in ("Index", "OpCall")
-        elif other and other[0].get("k") in ("Index", "OpCall"):
+            loaded = ini.get("k") in ("Index", "OpCall") or (ini.get("k") == "Ref" and ini.get("d") in rvars)
+        elif other and (other[0].get("k") in ("Index", "OpCall") or (other[0].get("k") == "Ref" and other[0].get("d") in rvars)):
             loaded = True
         if plain_coupon and loaded:
             out.append(ob("hll.coupon-identity", key, eqs[0]["loc"], "discharged", "duplicate iff stored element == coupon (whole value)", fn["qname"]))
